@@ -167,6 +167,8 @@ package strconv
 //@   loop 2 decreases nd(num)
 
 //@ func ParseNumber
+// a digit advances by one byte, a group or decimal symbol by the whole length of its UTF-8 encoding
+//@   loop 1 transition[F,C14] @advance: n == prev(n) + ite('0' <= prev(b[n]) && prev(b[n]) <= '9', 1, size)
 //@   ensures[S] 0 <= result2 && result2 <= len(b) && 0 <= result1
 //@   loop 1 invariant 0 <= n && n <= len(b) && 0 <= dec && dec <= n
 //@   loop 1 decreases len(b) - n
